@@ -28,14 +28,19 @@ ASSUMPTIONS = [
 EXPO = ["e", "E", "D", "d"]
 
 
-def sci(x, letter, digits=17):
-    """decimal string of Fraction x with `digits` significant digits in exponent notation"""
+def sci(x, letter, digits=17, style="full"):
+    """decimal string of Fraction x with `digits` significant digits in exponent notation; style "short": as a person (or a list-directed
+    Fortran WRITE) would put it -- trailing zeros dropped, "2.D-09" / "2e-09" for a whole mantissa, "0" or "0." for zero"""
     if x == 0:
-        return "0.00000000000000000" + letter + "+00"
+        return {"full": "0.00000000000000000" + letter + "+00", "short": "0", "short_dot": "0."}[style]
     d = Decimal(x.numerator) / Decimal(x.denominator)
-    s = ("%." + str(digits) + "e") % d if False else format(d, "." + str(digits) + "e")
+    s = format(d, "." + str(digits if style == "full" else 6) + "e")
     mant, ex = s.split("e")
     exi = int(ex)
+    if style != "full":
+        mant = mant.rstrip("0")
+        if mant.endswith(".") and style == "short":
+            mant = mant[:-1]
     return mant + letter + ("+" if exi >= 0 else "-") + "%02d" % abs(exi)
 
 
@@ -53,6 +58,7 @@ def polyco(draw, mode=None, extra=0):
     nent = draw(st.integers(1, 6))
     mode = mode or draw(st.sampled_from(["model", "random"]))
     letter = draw(st.sampled_from(EXPO))
+    style = draw(st.sampled_from(["full", "full", "full", "short", "short_dot"]))
     day0 = draw(st.integers(58000, 59990))
     min0 = draw(st.integers(0, 1439))
     gaps_ms = [draw(st.sampled_from([0, 0, 0, 0.5, 0.9, 1.5, 5000, 3600000, -60000, -span * 30000, 0.2,
@@ -91,7 +97,7 @@ def polyco(draw, mode=None, extra=0):
                 c[i] = sum(ak * math.comb(k, i) * tau ** (k - i) for k, ak in a.items() if k >= i)
             rph = dec(c[0], fdig)
             c[0] = c[0] - F(Decimal(rph))
-            entries.append({"tmid": ts, "rphase": rph, "coeffs": [sci(x, letter) for x in c]})
+            entries.append({"tmid": ts, "rphase": rph, "coeffs": [sci(x, letter, style=style) for x in c]})
     else:
         h = F(span, 2)
         for ts, tau in zip(tmid_s, tau_s):
@@ -102,7 +108,7 @@ def polyco(draw, mode=None, extra=0):
                 c.append(mag * draw(st.sampled_from([-1, 1])) / h**i)
             base = R0 + 60 * f0 * tau
             rph = dec(F(math.floor(base)) + F(draw(st.integers(0, 10**fdig - 1)), 10**fdig), fdig)
-            entries.append({"tmid": ts, "rphase": rph, "coeffs": [sci(x, letter) for x in c]})
+            entries.append({"tmid": ts, "rphase": rph, "coeffs": [sci(x, letter, style=style) for x in c]})
     return {"mode": mode, "truncated": mode == "model" and m > ncoeff - 1, "f0": dec(f0, 12), "span": span, "ncoeff": ncoeff, "entries": entries, "psr": draw(st.sampled_from(["B1937+21", "J0437-4715"])),
             "via": draw(st.sampled_from(["stringio", "stringio", "file"]))}
 
